@@ -5,7 +5,7 @@ CONSTANTS MaxQuery, MaxBody, Emit
 VARIABLES req, ph
 vars == <<req, ph>>
 
-MsgKinds == {"empty", "ascii", "unicode", "floats", "extremes", "bytes", "map", "oneof", "nested", "wkt", "repeated"}
+MsgKinds == {"empty", "ascii", "unicode", "floats", "extremes", "bytes", "map", "oneof", "nested", "wkt", "repeated", "tricky"}
 PVs(n) == IF n = 0 THEN {<<>>} ELSE IF n = 1 THEN {<<t>> : t \in StrToks} ELSE {<<t, u>> : t \in StrToks, u \in {"s_plain", "s_slash"}}
 
 ToksForKey(k) == IF FieldOfKey(k) = "tags" THEN StrToks ELSE TokensOf(FieldOfKey(k))
